@@ -66,17 +66,42 @@ impl HeadIt {
             ==> r.is_some() && !nan(r.unwrap()) && rv(r.unwrap()) == kth(x, nvalid(x) - j),
     { unimplemented!() }
 }
+// null-last orders on NaN-encoded floats (tea-dtype isnone.rs sort_cmp / sort_cmp_rev; the real comparators are proved total
+// preorders with nulls last by the Kani harnesses of C15).  Ascending and descending both put nulls LAST.
+pub open spec fn fcmp(a: T, b: T, asc: bool) -> core::cmp::Ordering {
+    if nan(a) && nan(b) { core::cmp::Ordering::Equal }
+    else if nan(a) { core::cmp::Ordering::Greater }
+    else if nan(b) { core::cmp::Ordering::Less }
+    else if rv(a) == rv(b) { core::cmp::Ordering::Equal }
+    else if (rv(a) < rv(b)) == asc { core::cmp::Ordering::Less }
+    else { core::cmp::Ordering::Greater }
+}
+pub trait SortCmpF: Sized {
+    fn sort_cmp(&self, other: &Self) -> (r: core::cmp::Ordering);
+    fn sort_cmp_rev(&self, other: &Self) -> (r: core::cmp::Ordering);
+}
+impl SortCmpF for f64 {
+    #[verifier::external_body]
+    fn sort_cmp(&self, other: &Self) -> (r: core::cmp::Ordering) ensures r == fcmp(*self, *other, true) { unimplemented!() }
+    #[verifier::external_body]
+    fn sort_cmp_rev(&self, other: &Self) -> (r: core::cmp::Ordering) ensures r == fcmp(*self, *other, false) { unimplemented!() }
+}
+// the comparator handed to the selection is one of the two null-last orders
+pub open spec fn cmp_is<F: Fn(&T, &T) -> core::cmp::Ordering>(f: F, asc: bool) -> bool {
+    forall|a: &T, b: &T, o: core::cmp::Ordering| #[trigger] f.ensures((a, b), o) ==> o == fcmp(*a, *b, asc)
+}
+// slice::select_nth_unstable_by(j, cmp) (R12: `slc.select_nth_unstable_by(` -> `select_nth_by(slc, `), A-SORT: what it delivers
+// depends on WHICH order the comparator is; a comparator that is neither null-last order is outside the contract
 #[verifier::external_body]
-pub fn select_nth_asc(slc: &mut [T], j: usize) -> (r: (Vec<T>, T, Vec<T>))
+pub fn select_nth_by<F: Fn(&T, &T) -> core::cmp::Ordering>(slc: &mut [T], j: usize, f: F) -> (r: (Vec<T>, T, Vec<T>))
     requires j < old(slc)@.len(),           // #C10 select_nth_index_in_range
-    ensures r.0@.len() == j, is_head(r.0@, old(slc)@, j as int, true),
-        j < nvalid(old(slc)@) ==> !nan(r.1) && rv(r.1) == kth(old(slc)@, j as int),
-{ unimplemented!() }
-#[verifier::external_body]
-pub fn select_nth_desc(slc: &mut [T], j: usize) -> (r: (Vec<T>, T, Vec<T>))
-    requires j < old(slc)@.len(),           // #C10 select_nth_index_in_range
-    ensures r.0@.len() == j, is_head(r.0@, old(slc)@, j as int, false),
-        j < nvalid(old(slc)@) ==> !nan(r.1) && rv(r.1) == kth(old(slc)@, nvalid(old(slc)@) - 1 - j),
+        forall|a: &T, b: &T| #[trigger] f.requires((a, b)),
+        cmp_is(f, true) || cmp_is(f, false),          // #C12,C08 comparator_is_a_null_last_order
+    ensures r.0@.len() == j,
+        cmp_is(f, true) ==> is_head(r.0@, old(slc)@, j as int, true)
+            && (j < nvalid(old(slc)@) ==> !nan(r.1) && rv(r.1) == kth(old(slc)@, j as int)),
+        cmp_is(f, false) ==> is_head(r.0@, old(slc)@, j as int, false)
+            && (j < nvalid(old(slc)@) ==> !nan(r.1) && rv(r.1) == kth(old(slc)@, nvalid(old(slc)@) - 1 - j)),
 { unimplemented!() }
 impl Cast<f64> for Option<f64> {
     open spec fn cast_spec(self) -> f64 { match self { Some(v) => v, None => arbitrary_nan() } }
@@ -145,18 +170,23 @@ pub proof fn lemma_index_bounds(n: int, q: real)
     assert(0real <= p <= m) by(nonlinear_arith) requires p == m * q, m >= 1real, 0real <= q <= 1real;
 }
 
-//@fn name=vquantile crate=tea-agg ctx="pub trait VecAggValidExt" props=C12,C10 arith=C12
+//@fn name=vquantile crate=tea-agg ctx="pub trait VecAggValidExt" props=C08,C10,C12 arith=C12
 //@types T=f64
 //@sig #[verifier::rlimit(50)] fn vquantile<V: TIter<T>>(this: &V, q: f64, method: QuantileMethod) -> (res: TResult<f64>)
 //@replace (0. ..=1.).contains(&q) => unit_interval_contains(&q)
 //@replace out_c.try_as_slice_mut().unwrap() => out_c.as_mut_slice()
-//@replace slc.select_nth_unstable_by(j, |va, vb| va.sort_cmp(vb)) => select_nth_asc(slc, j)
-//@replace slc.select_nth_unstable_by(j, |va, vb| va.sort_cmp_rev(vb)) => select_nth_desc(slc, j)
-//@closure 1 mode=annotate params="v: f64" ret="(c: f64)"
+//@replace slc.select_nth_unstable_by( => select_nth_by(slc,
+//@closure 1 mode=annotate key="sort_cmp" params="va: &f64, vb: &f64" ret="(o: core::cmp::Ordering)"
 //@closure 1 spec
-                    ensures c == v
-//@closure 2 mode=annotate params="v: f64" ret="(c: f64)"
+                    ensures o == fcmp(*va, *vb, true)           // #C12,C08 ascending_selection_puts_nulls_last
+//@closure 2 mode=annotate key=".f64()" params="v: f64" ret="(c: f64)"
 //@closure 2 spec
+                    ensures c == v
+//@closure 3 mode=annotate key="sort_cmp" params="va: &f64, vb: &f64" ret="(o: core::cmp::Ordering)"
+//@closure 3 spec
+                    ensures o == fcmp(*va, *vb, false)          // #C12,C08 descending_selection_puts_nulls_last
+//@closure 4 mode=annotate key=".f64()" params="v: f64" ret="(c: f64)"
+//@closure 4 spec
                     ensures c == v
 //@at body first
     proof {
